@@ -144,6 +144,9 @@ func Execute(tt *testing.T, p *Prop, tape *Tape, verbose bool) *Run {
 				if curSched.Load() == arm {
 					arm.Deactivate()
 				}
+				if arm.ArmBlockedAt != "" && r.V == nil {
+					r.Fail("lock-deadlock", arm.ArmBlockedAt, "the single goroutine driving the library would block forever on the lock at %s: it holds that lock itself (e.g. a log statement formatting the object under its own lock), or an earlier call returned without releasing it", arm.ArmBlockedAt)
+				}
 			}()
 		}
 		p.Run(r)
